@@ -277,11 +277,12 @@ def _match_template_vars(
     for k in t_vars:
         if k in ignore:
             continue
-        if k not in n_vars:
+        # A node that was built without type parameters has none, as from Python 3.13
+        if k not in n_vars and not (k == "type_params" and t_vars[k] == []):
             return ()
 
     matches = (
-        match_template(n_vars[key], t_vars[key], ignore=ignore)
+        match_template(n_vars.get(key, []), t_vars[key], ignore=ignore)
         for key in t_vars.keys() - ignore
     )
     return merge_matches(node, matches)
@@ -1285,6 +1286,12 @@ class _NameWildcardTransformer(ast.NodeTransformer):
         new_node = ast.ImportFrom(module=new_module, names=new_names, level=node.level)
         return ast.copy_location(new_node, node)
 
+    def _type_params(self, node):
+        # Type parameters exist from Python 3.12, and they are part of the definition
+        if not hasattr(node, "type_params"):
+            return {}
+        return {"type_params": [self.visit(child) for child in node.type_params]}
+
     def visit_ClassDef(self, node):
         new_name = self.name_wildcard_mapping.get(node.name, node.name)
         new_bases = [self.visit(child) for child in node.bases]
@@ -1297,6 +1304,7 @@ class _NameWildcardTransformer(ast.NodeTransformer):
             keywords=new_keywords,
             decorator_list=new_decorators,
             body=new_body,
+            **self._type_params(node),
         )
         return ast.copy_location(new_node, node)
 
@@ -1312,6 +1320,7 @@ class _NameWildcardTransformer(ast.NodeTransformer):
             body=new_body,
             decorator_list=new_decorator_list,
             returns=new_returns,
+            **self._type_params(node),
         )
         return ast.copy_location(new_node, node)
 
@@ -1327,6 +1336,7 @@ class _NameWildcardTransformer(ast.NodeTransformer):
             body=new_body,
             decorator_list=new_decorator_list,
             returns=new_returns,
+            **self._type_params(node),
         )
         return ast.copy_location(new_node, node)
 
